@@ -11,7 +11,8 @@ from . import c04
 PID = "C11"
 RULE = ("every IBAN the library accepts among: all bases under all fillers for every country, every "
         "single conforming substitution of them (check digits recomputed), and the length / "
-        "two-character-prefix families of C01 (rechecked members land in other countries); every "
+        "two-character-prefix families of C01 (rechecked members land in other countries), single edits "
+        "with look-alike characters and lower-case / printed spellings; every "
         "accepted BIC of the C04 families. Oracle: country+check digits+BBAN == compact; each of the "
         "eight accessors equals the BBAN slice at R-REG's position or '' ; ranges disjoint and inside "
         "the BBAN; IBAN-level == BBAN-level accessors; IBAN.from_bban(country, bban) == iban; BIC parts "
@@ -150,6 +151,14 @@ def iban_shard(args):
                     part.violation("object-altered-by-from_bban-of-another-country",
                                    {"kind": "c11", "type": "iban", "text": base, "how": "same object re-read "
                                     "after IBAN.from_bban(partner, obj.bban)"}, before, after)
+        if f in ("distinct", "digits"):
+            # non-conforming single edits (look-alike letters for digits, lower case, separators): most
+            # are rejected - whatever IS accepted must still decompose into its own compact form
+            for fam, text in families.single_edits(base, ["0", "O", "o", "I", "l", "1", "A", "a", "Z", "9", " ", "-"]):
+                run_text(text, fam)
+            for text in (base.lower(), " ".join(base[i:i + 4] for i in range(0, len(base), 4)).lower(),
+                         base[:4] + base[4:].lower(), base.swapcase()):
+                run_text(text, "spelling")
         if f in ("distinct", "max"):
             for fam, text in families.iban_lengths(base):
                 run_text(text, fam)
